@@ -8,9 +8,12 @@ declare -A CHECKS=(
   [b3_notify_rename]="C03 C04 C05 C12 C20"
   [b4_decrypt_padding_rewritten]="C10 C04"
   [b5_setattr_const]="C14 C15"
+  [b6_init_table_loop]="C11 C07"
+  [b7_unsupported_branch_restructured]="C13 C04"
+  [b8_iv_in_own_buffer]="C06 C17 C10"
 )
 bad=0
-for f in selftest/benign/*.diff; do
+for f in ${BENIGN:-selftest/benign/*.diff}; do
   n=$(basename $f .diff)
   WT=$(mktemp -d /tmp/ikeben.XXXXXX); OUT=$(mktemp -d /tmp/ikebenout.XXXXXX)
   git -C /repo worktree add --detach "$WT" HEAD -q -f
